@@ -73,6 +73,39 @@ mod v {
     }
 }
 
+/// the family extended by a map-typed field, read under DuplicateKeyPolicy::LastWins (a repeated key: the last entry is the
+/// value that is used, so that is where its fields are located)
+mod x {
+    use garde::Validate;
+    use serde::Deserialize;
+    use std::collections::BTreeMap;
+    #[derive(Deserialize, Debug, PartialEq)]
+    pub struct POuter {
+        pub first: super::p::Inner,
+        #[serde(rename = "subItem")]
+        pub sub_item: super::p::Inner,
+        pub items: Vec<super::p::Inner>,
+        pub tag: String,
+        #[serde(default)]
+        pub extras: BTreeMap<String, super::p::Inner>,
+    }
+    #[derive(Deserialize, Debug, Validate, PartialEq)]
+    pub struct GOuter {
+        #[garde(dive)]
+        pub first: super::g::Inner,
+        #[garde(dive)]
+        #[serde(rename = "subItem")]
+        pub sub_item: super::g::Inner,
+        #[garde(dive)]
+        pub items: Vec<super::g::Inner>,
+        #[garde(length(min = 1))]
+        pub tag: String,
+        #[garde(dive)]
+        #[serde(default)]
+        pub extras: BTreeMap<String, super::g::Inner>,
+    }
+}
+
 #[derive(Serialize, Clone, Default)]
 struct Pos {
     line: i64,
@@ -158,6 +191,7 @@ struct Rec<'a> {
 
 thread_local! {
     static DECOYS: std::cell::Cell<bool> = const { std::cell::Cell::new(false) };
+    static EXTRAS: std::cell::Cell<bool> = const { std::cell::Cell::new(false) };
 }
 
 #[derive(Deserialize)]
@@ -174,6 +208,7 @@ struct Stats {
     multi: usize,
     issues: usize,
     through_alias_or_merge: usize,
+    lastwins: usize,
     samples: Vec<serde_json::Value>,
 }
 
@@ -238,6 +273,44 @@ fn run_one(id: &str, text: &str, multi: bool, krate: &'static str, entry: &'stat
     if multi { stats.multi += 1; }
     if issues.iter().any(|i| i.r#use != i.def) { stats.nontrivial += 1; }
     w.put(&Rec { id: id.to_string(), kind: "valid", yaml: text, krate, entry, multi, docs: docs.to_vec(), plain_ok, vok, same, issues, plain, snip, ndocs_reported: ndocs as i64, eclass });
+}
+
+/// the extended family under LastWins (garde; string and reader entry points; single documents)
+fn run_lastwins(id: &str, text: &str, entry: &'static str, docs: &[DocEv], w: &mut NdWriter, stats: &mut Stats) {
+    let t = text.to_string();
+    let r = guarded(move || -> (bool, bool, bool, Vec<Issue>, usize, String, Vec<IssueLc>, Vec<IssueLc>) {
+        let opts = || { let mut o = serde_saphyr::Options::default(); o.duplicate_keys = serde_saphyr::options::DuplicateKeyPolicy::LastWins; o };
+        let plain: Result<String, serde_saphyr::Error> = serde_saphyr::from_str_with_options::<x::POuter>(&t, opts()).map(|v| format!("{v:?}"));
+        let validated: Result<String, serde_saphyr::Error> = match entry {
+            "reader" => serde_saphyr::from_reader_with_options_valid::<_, x::GOuter>(std::io::Cursor::new(t.as_bytes().to_vec()), opts()).map(|v| format!("{v:?}")),
+            _ => serde_saphyr::from_str_with_options_valid::<x::GOuter>(&t, opts()).map(|v| format!("{v:?}")),
+        };
+        match validated {
+            Ok(s) => (plain.is_ok(), true, plain.as_ref().map(|p| p.replace("POuter", "GOuter") == s).unwrap_or(false), vec![], 0, String::new(), vec![], vec![]),
+            Err(e) => {
+                let mut issues = vec![];
+                let mut nd = 0usize;
+                let class = classify(&e);
+                let pl = issues_plain(&e.render_with_options(serde_saphyr::render_options! { formatter: &serde_saphyr::DefaultMessageFormatter, snippets: serde_saphyr::SnippetMode::Off }));
+                let sn = issues_snippet(&e.to_string());
+                let report = serde_saphyr::miette::to_miette_report(&e, &t, "in.yaml");
+                collect_issues(report.as_ref(), &mut issues, &mut nd, 0);
+                let ndocs = if nd > 0 { nd } else if !issues.is_empty() { 1 } else { 0 };
+                (plain.is_ok(), false, false, issues, ndocs, class, pl, sn)
+            }
+        }
+    });
+    let (plain_ok, vok, same, mut issues, ndocs, eclass, mut plain, mut snip) = match r {
+        Ok(x) => x,
+        Err(p) => (false, false, false, vec![], 0, format!("PANIC:{p}"), vec![], vec![]),
+    };
+    issues.sort();
+    plain.sort();
+    snip.sort();
+    stats.issues += issues.len();
+    if vok { stats.passing += 1; } else { stats.failing += 1; }
+    stats.lastwins += 1;
+    w.put(&Rec { id: id.to_string(), kind: "valid", yaml: text, krate: "garde", entry, multi: false, docs: docs.to_vec(), plain_ok, vok, same, issues, plain, snip, ndocs_reported: ndocs as i64, eclass });
 }
 
 fn render(raw: &[AEv], rng: &mut Rng) -> Option<String> {
@@ -350,6 +423,16 @@ fn random_doc(rng: &mut Rng) -> Vec<AEv> {
             _ => { out.push(sc("tag")); out.push(if rng.chance(1, 5) { AEv::new("S", 0, "", "d", "") } else { sc("t1") }); }
         }
     }
+    if EXTRAS.with(|e| e.get()) {
+        // a map-typed field whose keys may repeat (read under LastWins)
+        out.push(sc("extras"));
+        out.push(AEv::new("MS", 0, "", "p", ""));
+        for _ in 0..1 + rng.below(4) {
+            out.push(sc(*rng.pick(&["k1", "k2", "k1", "k3"])));
+            inner(rng, &mut out, &mut map_anchors, &mut next_anchor);
+        }
+        out.push(AEv::new("ME", 0, "", "p", ""));
+    }
     out.push(AEv::new("ME", 0, "", "p", ""));
     out
 }
@@ -404,6 +487,18 @@ pub fn run(args: &Args) -> i32 {
             }
         }
     }
+    // the extended family under LastWins
+    EXTRAS.with(|e| e.set(true));
+    DECOYS.with(|d| d.set(false));
+    for i in 0..n / 3 {
+        let raw = random_doc(&mut rng);
+        let Some(t) = render(&raw, &mut rng) else { continue };
+        let Some(docs) = docs_with_pos(&t) else { continue };
+        if docs.len() != 1 { continue; }
+        run_lastwins(&format!("lw{i}-str"), &t, "str", &docs, &mut w, &mut stats);
+        if i % 3 == 0 { run_lastwins(&format!("lw{i}-reader"), &t, "reader", &docs, &mut w, &mut stats); }
+    }
+    EXTRAS.with(|e| e.set(false));
     stats.records = w.n;
     w.finish();
     println!("{}", serde_json::to_string(&stats).unwrap());
